@@ -26,7 +26,7 @@ ASSUMPTIONS = ["a refactoring that refuses (ValueError/NotImplementedError/Model
                "evaluators are documented for models without ODE systems; they are only judged there"]
 BOUNDS = {"quick": "states at depth <= 1 (full alphabet, capped at 80 states); single refactorings", "thorough": "depth <= 2; ordered pairs of refactorings on depth <= 1 states"}
 
-START = ["pheno", "pheno_oral", "pheno_linear"]
+START = ["pheno", "pheno_oral", "pheno_linear", "pred_nl"]
 
 
 def refactorings():
